@@ -82,6 +82,10 @@ EXPLANATION += (
     ' convert_to_cpm returns 10^6 * data / row total on every path and both conversions take log2 of 1 + that (R-ARITH/cpm).'
 )
 
+EXPLANATION += (
+    ' Round 10: the chunk size handed to the row readers does not depend on the number of gene columns (R-PROV/chunking-independent-of-genes).'
+)
+
 RULE_TEXT = (
     "one obligation per dominance / typestate / provenance relation named "
     "above")
